@@ -456,15 +456,57 @@ Proof.
   cbv beta iota. rewrite Hex. reflexivity.
 Qed.
 
-Lemma stv_init_err : forall cfg p e, wf_stv0 p -> stv_init cfg p = inr e ->
-  e = EValue /\ (~ (1 <= s_m cfg <= Z.of_nat (length (cands p)))%Z \/ s_quota cfg = QBad).
+Notation integral_weights := (integral_weights cand).
+
+Lemma integral_weights_forallb : forall p : profile,
+  integral_weights p <-> forallb (fun b => is_integral (wt b)) (ballots p) = true.
+Proof.
+  intros p. unfold STVSpec.integral_weights. rewrite Forall_forall, forallb_forall. reflexivity.
+Qed.
+
+(* the errors of the constructor on a valid profile, in order: (since the up-front check of the
+   random transfer) TypeError for a non-integral weight under the random transfer, else ValueError
+   for the seat count or the quota name *)
+Lemma stv_init_err_gen : forall cfg p e, wf_stv0 p -> stv_init cfg p = inr e ->
+  (e = EType /\ s_transfer cfg = TRandom /\ ~ integral_weights p) \/
+  (e = EValue /\ (s_transfer cfg = TRandom -> integral_weights p) /\
+   (~ (1 <= s_m cfg <= Z.of_nat (length (cands p)))%Z \/ s_quota cfg = QBad)).
 Proof.
   intros cfg p e Hwf H. unfold STV.stv_init, rbind in H. rewrite (stv_validate_ok p Hwf) in H.
+  destruct (is_trandom (s_transfer cfg) &&
+            negb (forallb (fun b => is_integral (wt b)) (ballots p))) eqn:Ec.
+  { left. injection H as <-. apply andb_true_iff in Ec. destruct Ec as [Ec1 Ec2].
+    apply negb_true_iff in Ec2. split; [reflexivity|]. split.
+    - destruct (s_transfer cfg); try discriminate. reflexivity.
+    - intros Hi. apply integral_weights_forallb in Hi. congruence. }
+  right.
+  assert (Hint : s_transfer cfg = TRandom -> integral_weights p).
+  { intros Ht. rewrite Ht in Ec. cbn [is_trandom andb] in Ec. apply negb_false_iff in Ec.
+    apply integral_weights_forallb. exact Ec. }
   destruct ((s_m cfg <=? 0)%Z || (Z.of_nat (length (cands p)) <? s_m cfg)%Z) eqn:E.
-  - injection H as <-. split; [reflexivity|]. left. apply orb_true_iff in E.
+  - injection H as <-. split; [reflexivity|]. split; [exact Hint|]. left. apply orb_true_iff in E.
     destruct E as [E|E]; [apply Z.leb_le in E|apply Z.ltb_lt in E]; lia.
   - unfold threshold in H. destruct (s_quota cfg); try discriminate. injection H as <-.
-    split; [reflexivity|]. right. reflexivity.
+    split; [reflexivity|]. split; [exact Hint|]. right. reflexivity.
+Qed.
+
+(* with a deterministic transfer, or integral weights, only the ValueErrors remain *)
+Lemma stv_init_err : forall cfg p e, wf_stv0 p ->
+  (s_transfer cfg = TRandom -> integral_weights p) -> stv_init cfg p = inr e ->
+  e = EValue /\ (~ (1 <= s_m cfg <= Z.of_nat (length (cands p)))%Z \/ s_quota cfg = QBad).
+Proof.
+  intros cfg p e Hwf Hint H.
+  destruct (stv_init_err_gen cfg p e Hwf H) as [(_ & Ht & Hn)|(He & _ & Hc)].
+  - exfalso. apply Hn. apply Hint. exact Ht.
+  - split; assumption.
+Qed.
+
+(* success of the constructor with the random transfer implies integral weights *)
+Lemma stv_init_ok_integral : forall cfg (p : profile) t, stv_init cfg p = inl t ->
+  s_transfer cfg = TRandom -> integral_weights p.
+Proof.
+  intros cfg p t H Ht. apply integral_weights_forallb.
+  exact (stv_init_random_integral cand cfg p t H Ht).
 Qed.
 
 Lemma initial_state_ok : forall p, wf_stv0 p -> exists s0, initial_state p = inl s0.
@@ -498,7 +540,7 @@ Proof.
   - destruct (initial_state_ok p Hwf) as [s0 E0]. rewrite E0.
     apply (stv_loop_no_fuel _ cfg t (total_wt (ballots p)) p p [s0] s (stv_inv_init cfg p t s0 Hwf Ei E0) Hscr).
     lia.
-  - destruct (stv_init_err cfg p e Hwf Ei) as [-> _]. discriminate.
+  - destruct (stv_init_err_gen cfg p e Hwf Ei) as [(-> & _)|(-> & _)]; discriminate.
 Qed.
 
 (* ====================== G: the recorded rounds ====================== *)
@@ -833,7 +875,9 @@ Proof.
     destruct (droop_loop_errors cfg t _ p Hk HN ltac:(lra) _ p [s0] s e Hinv Hscr Hle H) as [->|Hd].
     + exfalso. apply Hnf. exact H.
     + right. exact Hd.
-  - injection H as <-. destruct (stv_init_err cfg p e0 Hwf Ei) as [-> [Hm|Hb]].
+  - injection H as <-.
+    destruct (stv_init_err_gen cfg p e0 Hwf Ei) as [(-> & Ht & _)|(-> & _ & [Hm|Hb])].
+    + right. right. right. split; [exact Ht|left; reflexivity].
     + left. split; [reflexivity|exact Hm].
     + rewrite Hq in Hb. discriminate.
 Qed.
